@@ -44,7 +44,26 @@ def _family(args):
     out = []
     try:
         const_alpha = kind == "ideal" or tab == "synth_alpha:constant"
-        fp = rdrv.flow_properties(sdrv.table(tab), pi)
+        # the reference quantities (m_f, m_i, the diffusivity handed to the independent solver) come from a fluid built first, from
+        # a private copy of the table
+        src = sdrv.table(tab)
+        fp = rdrv.flow_properties(src.copy() if hasattr(src, "copy") else dict(src), pi)
+        # the runs themselves are made the way a study over initial pressures makes them: one table object (a DataFrame, or a dict
+        # of arrays for every other family), a coarse scan over p_i first (fluids and reservoirs built, used and dropped), then a
+        # fresh fluid for every reservoir
+        tab_obj = src
+        if (len(tab) + int(pf)) % 2 == 1 and hasattr(src, "columns"):
+            tab_obj = {c: np.asarray(src[c]).copy() for c in src.columns}
+        with warnings.catch_warnings():
+            warnings.simplefilter("ignore")
+            for q in np.linspace(0.55 * pi, pi, 9)[:-1]:
+                try:
+                    fq = rdrv.flow_properties(tab_obj, float(q))
+                    (IdealReservoir if kind == "ideal" else SinglePhaseReservoir)(5, min(pf, 0.5 * float(q)), float(q), fq).simulate(
+                        np.linspace(0, 1, 4) ** 2)
+                except Exception:  # noqa: BLE001  the scan is only a prelude; a p_i the table cannot serve is skipped
+                    pass
+                fq = None
         if kind == "ideal":
             m_f, m_i, scale_rf = 0.0, 1.0, 1 - pf / pi
         else:
@@ -52,7 +71,7 @@ def _family(args):
         mol = None
         for nx, nt in rr:
             t = np.linspace(0, math.sqrt(T_END), nt) ** 2
-            obj = (IdealReservoir if kind == "ideal" else SinglePhaseReservoir)(nx, pf, pi, fp)
+            obj = (IdealReservoir if kind == "ideal" else SinglePhaseReservoir)(nx, pf, pi, rdrv.flow_properties(tab_obj, pi))
             with warnings.catch_warnings():
                 warnings.simplefilter("ignore")
                 obj.simulate(t)
